@@ -139,6 +139,9 @@ func init() {
 				nt = "0"
 			}
 			fmt.Fprintf(out, "CASE\tC03\t%s\t%s\t%s\n", sx.String(r.caseSx), sx.String(r.obs), nt)
+			if r.nfObs != nil {
+				fmt.Fprintf(out, "CASE\tC03nf\t%s\t%s\t%s\n", sx.String(r.caseSx), sx.String(r.nfObs), nt)
+			}
 		}
 		// byte-level mutation of rendered documents: totality only (no model comparison)
 		m := 3000
